@@ -1,19 +1,26 @@
 """
 C15 — stream compression of tar input/output is transparent.
 
-Proof: Sqfs/Props/C15.lean (wrapper loops of istream_xfrm/ostream_xfrm terminate and are transparent for every
-codec meeting the stated contract; the backends' process_data loops meet the contract for every library stream
-meeting the documented calling convention; a concrete toy codec meets all of it).
+Proof: Sqfs/Props/C15.lean (wrapper loops of istream_xfrm/ostream_xfrm terminate and are transparent for every codec meeting the
+stated contracts; truncated and corrupted input is an error, never a regular end; the four backends' process_data loops meet the
+contracts for every library stream meeting the documented calling conventions; errors of the wrapped streams are never swallowed;
+a concrete toy codec meets all of it).
 
 Tie, on every run, built from the working tree ($VERIF_REPO) under ASan+UBSan:
- (a) real lib/xfrm/src/istream.c + ostream.c driven by the *fake* toy codec (harness/h_c15.c) vs `sqfsmodel c15`
-     on the same scenarios: exhaustive small chunkings + seeded random, at several BUFSZ values (the constant
-     is rewritten in a scratch copy) and at the real BUFSZ;
+ (a) real lib/xfrm/src/istream.c + ostream.c driven by the *fake* toy codec (harness/h_c15.c) vs `sqfsmodel c15` on the same
+     scenarios: exhaustive small chunkings + seeded random + wrapped streams whose k-th call fails, at several BUFSZ values (the
+     constant is rewritten in a scratch copy) and at the real BUFSZ;
  (a') real gzip.c/xz.c/bzip2.c/zstd.c process_data loops over *fake* libraries (harness/h_c15w.c) vs the model;
- (b) real codecs at tool level: tar2sqfs on plain vs gzip/xz/zstd/bzip2 input (single stream, members split at
-     arbitrary offsets, trailing padding/garbage, truncated, bit-flipped); `sqfs2tar -c X` expanded by reference
-     decompressors (Python zlib/lzma/bz2, libzstd through harness/c15_zstd_ref.c) vs plain `sqfs2tar`;
-     sizes around multiples of BUFSZ with incompressible data; everything under a timeout (a hang is a result).
+ (a'') the real backends over the real libraries under the real wrappers (h_c15.c -DH_REAL_CODECS: ristream/rostream/rfeed) at
+     small BUFSZ values and the real one, judged by reference decompressors; contract clauses monitored call by call;
+ (c) tar_open_stream's probing and the magic table vs the model;
+ (b) real codecs at tool level: tar2sqfs on plain vs gzip/xz/zstd/bzip2 input (single stream, members split at arbitrary offsets
+     and straddling the input window, every preset level of the reference tools, pipe chunking, zstd special frames, trailing
+     padding/garbage, truncated, bit-flipped); `sqfs2tar -c X` expanded by reference decompressors (Python zlib/lzma/bz2, libzstd
+     through harness/c15_zstd_ref.c) vs plain `sqfs2tar`, and fed back to tar2sqfs; sizes around multiples of BUFSZ with
+     incompressible data and far back-references; everything under a CPU-time limit (a hang is a result).
+Nothing is lenient: streams of different length, a short answer of a helper, a non-zero exit code of a reference tool, an empty
+part or class raise CheckFailure (= violation "check could not complete"), never a pass.
 """
 import gzip as pygzip, bz2, hashlib, io, json, lzma, os, re, subprocess, tarfile, zlib
 from concurrent.futures import ThreadPoolExecutor
@@ -489,6 +496,13 @@ def fake_codec_part(ctx):
         if (v == "1") != py:
             raise vlib.CheckFailure("Python toy oracle and Lean specification disagree on sink %s / input %s" % (sink[:80], want[:80]))
     stats["monitor_crosschecked"] = len(closed)
+    # ... and the encoder/decoder of the toy format (Lean Toy.encode / Toy.decode, the `Dec` of the non-vacuity theorems)
+    xs = [bytes(ctx.rng.randrange(256) for _ in range(ctx.rng.randint(0, 9))) for _ in range(40)]
+    enc = model_lines(ctx, ["toyenc " + tok(x) for x in xs], "toy encoder")
+    dec = model_lines(ctx, ["toydec " + tok(toy_encode(x)) for x in xs] + ["toydec " + tok(toy_encode(x)[:-1]) for x in xs], "toy decoder")
+    for x, e, d, d2 in strict_zip("toy format", xs, enc, dec[:len(xs)], dec[len(xs):]):
+        if e != tok(toy_encode(x)) or d != "ok " + tok(x) or d2 != "fail":
+            raise vlib.CheckFailure("Python toy format and Lean Toy.encode/decode disagree on %s: %s / %s / %s" % (tok(x), e, d, d2))
     for k in ("ostream:-", "ostreamx:-", "istream:valid", "istream:truncated", "istream:garbage", "istreamx:valid"):
         need(stats["classes"].get(k, 0) > 0, "no fake-codec scenario of class %s was evaluated" % k)
     return stats, samples, real_b
@@ -1066,9 +1080,10 @@ QUICK_LEVELS = {"gzip": [1, 9], "xz": [0, 6, 7, 9, "9e"], "bzip2": [1, 9], "zstd
 
 def cli_compress(T, codec, data, level):
     """the archive as the reference command line tool writes it at that preset (zstd: libzstd through c15_zstd_ref — no zstd CLI is
-    installed —, with content checksum as the tool does).  Exit codes and empty outputs are failures of the check."""
+    installed —, streaming without announced size and with content checksum, as `tar c | zstd -N` does: the frame header carries
+    the window the level asks for, 2^27 at level 22).  Exit codes and empty outputs are failures of the check."""
     if codec == "zstd":
-        return T.zstd("cc", data, level)
+        return T.zstd("cs", data, level)
     lv = str(level)
     cmd = {"gzip": ["gzip", "-n", "-c", "-" + lv],
            "xz": ["xz", "-c", "-T1", "-" + lv[0]] + (["-e"] if lv.endswith("e") else []),
@@ -1175,6 +1190,11 @@ def tool_part(ctx, bufsz):
         n = total - 512 - 1024
         body = rng.randbytes(n) if rnd else (b"squashfs" * (n // 8 + 1))[:n]
         archives.append(("edge%dx%+d%s" % (k, delta, "r" if rnd else "c"), mk_tar([("f", body)])))
+    # back-references near the far end of deflate's 32 KiB window, also across the edge of the wrapper's output buffer (within one
+    # call the decoder copies from its output; only across calls does it need its window: a gzip decoder set up with a smaller
+    # window fails there): the same 30000 random bytes, 1.5 buffers long
+    far = rng.randbytes(30000)
+    archives.append(("far-matches", mk_tar([("f", (far * (3 * bufsz // 60000 + 1))[:3 * bufsz // 2])])))
     plain = {}
     slowest = 0.0
     import resource
@@ -1212,9 +1232,9 @@ def tool_part(ctx, bufsz):
             if small or tag == archives[1][0]:
                 sizes = [rng.choice([1, 2, 7, 511, 512, 513, 4096, rng.randint(1, 9000)]) for _ in range(rng.randint(20, 60))]
                 add("pipe-chunks", codec, tag, "single stream written in %d pieces of 1..9000 bytes, then the rest" % len(sizes), whole, "same", sizes)
-            if small or (not quick and tag == archives[1][0]):
+            if small or tag == "far-matches" or (not quick and tag == archives[1][0]):
                 # every preset level of the reference tools
-                for lvl in levels[codec]:
+                for lvl in (levels[codec] if tag != "far-matches" else [levels[codec][0], [x for x in levels[codec] if isinstance(x, int)][-1]]):
                     add("level", codec, tag, "reference tool at level %s" % lvl, cli_compress(T, codec, tar, lvl), "same")
             if small:
                 if codec == "zstd":
@@ -1229,7 +1249,8 @@ def tool_part(ctx, bufsz):
                     did = zstd_with_dict_id(whole)
                     if did:
                         add("zstd-frames", codec, tag, "frame header names a dictionary", did, "reference")
-                    add("zstd-frames", codec, tag, "window log 27 (largest a default decoder accepts)", T.zstd("cc", tar, 19, 27), "same")
+                    add("zstd-frames", codec, tag, "window log 27 (largest a default decoder accepts)", T.zstd("cs", tar, 19, 27), "same")
+                    add("zstd-frames", codec, tag, "window log 28 (a default decoder refuses it)", T.zstd("cs", tar, 19, 28), "reference")
                 for pad in (1, 4, 512, 10240):
                     add("padding", codec, tag, "+%d zero bytes" % pad, whole + b"\0" * pad, "same-or-error")
                 add("garbage", codec, tag, "+ trailing garbage", whole + rng.randbytes(rng.randint(1, 64)), "same-or-error")
@@ -1408,10 +1429,10 @@ def run(ctx):
         "bufsz": bufsz,
     })
     return ctx.finish(LEVEL, trusted_extra=[
-        "zlib, liblzma, libbz2 are represented by the library-level conventions LibEncContract/LibDecContract of Sqfs/Spec/XfrmContract.lean (assumed; exercised at tool level against reference decompressors: Python zlib/lzma/bz2), libzstd through zstd.c by EncContract/DecContract directly (the zstd loop's contract theorem is not proved; exercised by harness a' and against libzstd)",
-        "modelled: lib/xfrm/src/istream.c, ostream.c (as written), the process_data loops of gzip.c/xz.c/bzip2.c/zstd.c (with fixes/C15-*.patch applied; the unpatched loops are Sqfs/Model/XfrmOld.lean)",
-        "harness/h_c15.c (fake codec, scripted source, sink), harness/c15_zstd_ref.c, tools/checks/c15.py (generators, oracles)"],
-        assumptions=["inputs shorter than the codec's magic number are not recognised as compressed by tar_open_stream and are read as a plain tar stream (out of scope here)",
+        "zlib, liblzma, libbz2, libzstd are represented by the library-level conventions LibEncContract/LibDecContract/LibDecErrContract, ZEncContract/ZDecContract/ZDecErrContract of Sqfs/Spec/XfrmContract.lean (assumed; exercised under the real wrappers and call by call by part a'' and at tool level against reference decompressors: Python zlib/lzma/bz2, libzstd; producers: the gzip/xz/bzip2 command line tools, libzstd's streaming API)",
+        "modelled: lib/xfrm/src/istream.c, ostream.c, the process_data loops of gzip.c/xz.c/bzip2.c/zstd.c, compress.c's magic table, tar_open_stream's probing, as in the current tree (the loops before fix commits 8eb5186/7b3a56e are Sqfs/Model/XfrmOld.lean, used by Sqfs/Witness/C15.lean only)",
+        "harness/h_c15.c (fake codec, scripted source and sink with failure injection, real-codec ops), h_c15w.c + c15_fakelib.[ch], h_c15p.c, c15_zstd_ref.c, tools/checks/c15.py (generators, oracles)"],
+        assumptions=["inputs that do not start with a codec's magic number (shorter than it, or a zstd stream whose first frame is a skippable frame) are not recognised as compressed by tar_open_stream, are read as a plain tar stream and rejected by the tar reader (limitation, not claimed)",
                      "zstd frames without content checksum cannot reveal payload damage; damaged streams are judged against the reference decompressor's verdict"])
 
 
@@ -1432,6 +1453,17 @@ def replay(ctx, path):
         bad = spec_verdict(s, impl[0])
         print("impl :", impl[0][:500]); print("model:", model[0][:500]); print("clauses violated:", bad)
         return 1 if bad or impl[0] != model[0] else 0
+    if "real_line" in rp:
+        if not rp["real_line"]:
+            print("the recorded line was too long to keep (sha256 %s): re-run the tier with the recorded seed" % rp.get("real_line_sha"))
+            return 1
+        line = rp["real_line"]
+        bufsz = int(line.split()[1]) if line.split()[0] != "rfeed" else 64
+        exe = build_fake_harness(ctx, bufsz, "unmodified" in rp.get("harness", ""), real_codecs=True)
+        impl = run_lines(ctx, exe, [line], timeout=300)
+        print("impl :", impl[0][:1500]); print("recorded:", rp.get("impl", "")[:1500])
+        print("(the verdict needs the reference decompressor: class %s; see tools/checks/c15.py real_codec_part)" % rp.get("class"))
+        return 1 if impl[0] == rp.get("impl", "")[:2000] or impl[0].endswith("HANG") or impl[0].startswith("ABORT") else 0
     if "wrap_line" in rp:
         ctx.lean_build(["sqfsmodel"])
         exe = build_wrap_harness(ctx)
